@@ -98,7 +98,8 @@ Theorem C04_seq_aardvark : forall st r s out st' sent rest,
 Proof. exact aardvark_seq. Qed.
 Print Assumptions C04_seq_aardvark.
 
-(* seq_{k+1} = (seq_k + 1) mod 64 <> seq_k, for every counter value (also out of range) *)
+(* seq_{k+1} = (seq_k + 1) mod 64 <> seq_k, for every counter value (also out of range); k ranges
+   over requests AND probes (C04_seq_probe_i2c) *)
 Theorem C04_seq_distinct : forall n, inc_seq (inc_seq n) <> inc_seq n.
 Proof. exact inc_seq_changes. Qed.
 Print Assumptions C04_seq_distinct.
@@ -112,31 +113,18 @@ Theorem C04_probe_attribution_i2c : forall view wire st a s d st' sent rest,
 Proof. exact i2c_probe_attribution. Qed.
 Print Assumptions C04_probe_attribution_i2c.
 
-(* the probe leaves the state alone and its frame carries the CURRENT counter value *)
+(* the probe is a request of its own: it advances the counter by one modulo 64 whatever its
+   outcome, and its frame carries the new value - so with C04_seq_ipmbdev / C04_seq_aardvark the
+   counter always equals the number of the last frame written, request or probe, and the next
+   frame - request or probe - carries counter + 1 mod 64: C04_seq_distinct covers both *)
 Theorem C04_seq_probe_i2c : forall view wire st a s out st' sent rest,
   (forall tx, nth 4 (wire tx) 0 = nth 4 tx 0) ->
   i2c_probe view wire st a s = (out, st', sent, rest) ->
-  st' = st /\ forall f, In f sent -> nth 4 f 0 / 4 = i_next_seq st.
+  i_next_seq st' = inc_seq (i_next_seq st) /\ i_max_retries st' = i_max_retries st /\
+  i_slave st' = i_slave st /\
+  forall f, In f sent -> nth 4 f 0 / 4 = inc_seq (i_next_seq st).
 Proof. exact i2c_probe_seq. Qed.
 Print Assumptions C04_seq_probe_i2c.
-
-(* "consecutive requests carry different sequence numbers", with probes in the history:
-   FALSE for a probe that follows a request - the probe re-uses the request's number (here the
-   two frames are even identical, so a late reply to the request answers the probe): *)
-Theorem C04_seq_probe_after_request_refuted :
-  exists st r s1 a s2 out1 st1 f1 rest1 out2 st2 f2 rest2,
-    ipmbdev_send_receive st r s1 = (out1, st1, [f1], rest1) /\
-    i2c_probe ipmbdev_view ipmbdev_wire st1 a s2 = (out2, st2, [f2], rest2) /\
-    nth 4 f1 0 / 4 = nth 4 f2 0 / 4 /\ f1 = f2.
-Proof. exact probe_reuses_request_number. Qed.
-Print Assumptions C04_seq_probe_after_request_refuted.
-
-(* ... and TRUE for every REQUEST, whatever was written before it: by C04_seq_* and
-   C04_seq_probe_i2c the counter always equals the number of the last frame written (request or
-   probe), and a request carries counter + 1 mod 64, which differs from it for every value *)
-Theorem C04_seq_distinct_except_known : forall n, inc_seq n <> n.
-Proof. exact inc_seq_differs. Qed.
-Print Assumptions C04_seq_distinct_except_known.
 
 (* ---- liveness (event-script level; the timing side is outside: partial label) ---- *)
 (* LAN, repaired code: a matching reply preceded by unrelated frames - frames the loop
